@@ -409,7 +409,7 @@ func (d *sdriver) updFunder(by, to sdk.AccAddress, p []string, res *engine.Resul
 
 func sbounds(tier string) (int, time.Duration) {
 	if tier == "thorough" {
-		return 4, 25 * time.Minute
+		return 5, 45 * time.Minute
 	}
 	return 3, 4 * time.Minute
 }
